@@ -133,26 +133,23 @@ def rule_a2(ctx):
         res.bad(Finding("A2", f["id"], "Cast can raise", "the Cast arm can raise a panic through %s" % mir.callee(body.term(noisy[0])), body.term(noisy[0])["sp"]))
     else:
         res.ok({"arm": "Cast", "verdict": "no raise"})
-    # three-way Ordering on (target size).cmp(operand length)
-    cmps = [b for b in region if body.term(b)["k"] == "call" and mir.last_seg(mir.callee(body.term(b)) or "") == "cmp"]
-    ok_cmp = False
-    for cb in cmps:
-        t = body.term(cb)
-        srcs = body.deep_sources(t["args"][0], 2) | body.deep_sources(t["args"][1], 2)
-        has_size = any(r[0] == "call" and mir.last_seg(r[2] or "") == "size_in_bits_for_defs" for (r, p) in srcs)
-        has_len = any(r[0] == "call" and mir.last_seg(r[2] or "") == "len" for (r, p) in srcs)
-        for x in region:
-            info = body.switch_info(x)
-            if info and info[2] == "std::cmp::Ordering" and info[0] and info[0][0][0] == "call" and info[0][0][1] == cb:
-                tt = body.term(x)
-                arms = {info[1].get(v) for v, _ in tt["targets"]}
-                unl = [n for v, n in info[1].items() if v not in {vv for vv, _ in tt["targets"]}]
-                if has_size and has_len and len(arms | set(unl)) == 3:
-                    ok_cmp = True
-    if ok_cmp:
-        res.ok({"arm": "Cast", "verdict": "truncate / keep / extend selected by size_in_bits(target).cmp(len(operand))"})
+    # truncation keeps the low bits: the kept suffix starts at (operand length - target size). Which comparison spelling
+    # selects between truncating, keeping and extending is not load-bearing (extend_to_bits is a no-op for equal
+    # widths), the subtraction is: without it the arm either never truncates or keeps the wrong end.
+    def _has(op, name):
+        return any(r[0] == "call" and mir.last_seg(r[2] or "") == name for (r, p) in body.deep_sources(op, 2))
+    subs = []
+    for x in sorted(region):
+        for st in body.blocks[x]["stmts"]:
+            if st["k"] == "assign" and st["rv"]["k"] == "binop" and st["rv"]["op"] in ("Sub", "SubWithOverflow", "SubUnchecked"):
+                subs.append((st["rv"]["l"], st["rv"]["r"]))
+        t = body.term(x)
+        if t["k"] == "call" and mir.last_seg(mir.callee(t) or "") in ("saturating_sub", "checked_sub", "wrapping_sub") and len(t["args"]) == 2:
+            subs.append((t["args"][0], t["args"][1]))
+    if any(_has(l, "len") and _has(r, "size_in_bits_for_defs") for l, r in subs):
+        res.ok({"arm": "Cast", "verdict": "truncation keeps the suffix starting at len(operand) - size_in_bits(target)"})
     else:
-        res.bad(Finding("A2", f["id"], "Cast not width-driven", "the Cast arm does not select by comparing the target size with the operand length in all three orderings", f["sp"]))
+        res.bad(Finding("A2", f["id"], "Cast not width-driven", "the Cast arm never computes len(operand) - size_in_bits(target): a narrowing cast does not keep exactly the low bits", f["sp"]))
     # extension uses the *source* type
     ext = [b for b in region if body.term(b)["k"] == "call" and mir.last_seg(mir.callee(body.term(b)) or "") == "extend_to_bits"]
     if not ext:
@@ -160,8 +157,10 @@ def rule_a2(ctx):
     for b in ext:
         t = body.term(b)
         tr = body.trace_operand(t["args"][1])
-        if any(r == SELF1 and tuple(p[:3]) == ("inner", "as Cast", "1") and p[-1] == "ty" for (r, p) in tr):
-            res.ok({"arm": "Cast", "verdict": "extend_to_bits(.., source type, ..)"})
+        if not _has(t["args"][2], "size_in_bits_for_defs"):
+            res.bad(Finding("A2", f["id"], "Cast extends to another width", "extend_to_bits in the Cast arm is not given size_in_bits(target type) as the new width", t["sp"]))
+        elif any(r == SELF1 and tuple(p[:3]) == ("inner", "as Cast", "1") and p[-1] == "ty" for (r, p) in tr):
+            res.ok({"arm": "Cast", "verdict": "extend_to_bits(.., source type, size of the target type)"})
         else:
             res.bad(Finding("A2", f["id"], "Cast extends with the wrong type", "extension does not use the type of the casted expression (%s): signedness of the extension follows the target" %
                             sorted(".".join(p) for r, p in tr), t["sp"]))
